@@ -283,8 +283,19 @@ func OpenFindings(prop string) []Finding {
 // entries suppress; fixed entries suppress nothing.
 func IsKnown(prop, key string) bool {
 	kfOnce.Do(loadKF)
-	_, ok := kfOpen[prop+"|"+key]
-	return ok
+	if _, ok := kfOpen[prop+"|"+key]; ok {
+		return true
+	}
+	// the same observation reported from inside a call-sequence wrapper ("after-.../", "cold-start/",
+	// "state-carried-between-calls/") is still the listed observation: match the listed key as a path suffix
+	for i := 0; i < len(key); i++ {
+		if key[i] == '/' {
+			if _, ok := kfOpen[prop+"|"+key[i+1:]]; ok {
+				return true
+			}
+		}
+	}
+	return false
 }
 
 // ---------------------------------------------------------------- violations
